@@ -34,6 +34,9 @@ FAMILIES = {
     "nested {{a| }}": lambda n: "{{a|" * n + "}}" * n, "nested {{{a| }}}": lambda n: "{{{a|" * n + "}}}" * n,
     "nested <b> </b>": lambda n: "<b>" * n + "</b>" * n, "nested [[a| ]]": lambda n: "[[a|" * n + "]]" * n,
     "nested <div><span>": lambda n: "<div><span>" * n + "</span></div>" * n, "nested lists": lambda n: "*" * n + " a",
+    "nested <a <a />": lambda n: "<a " * n + "/>" * n, "nested <a b=<a b=": lambda n: "<a b=" * n + "x" + ">y</a>" * n,
+    "nested <a b=\"<a b=\"": lambda n: "<a b=\"" * n + "x" + "\">y</a>" * n, "nested <a {{b|<a": lambda n: "<a {{b|" * n + "}}/>" * n,
+    "nested {| a=<b ": lambda n: "{| a=<b c=" * n + "x" + ">y</b>\n|}" * n, "nested <a [[b|<a": lambda n: "<a [[b|" * n + "]]/>" * n,
     "nested tables": lambda n: "{|\n|\n" * n + "|}\n" * n, "nested [x {{": lambda n: "[http://a {{b|" * n + "}}]" * n,
     "nested '' '''": lambda n: "''a'''b" * n + "'''''" * n,
     "nested {{a|'''''": lambda n: "{{a|'''''" * n + "'''''}}" * n, "nested {{ runs": lambda n: ("{{" * 40 + "a|") * n + "}}" * (40 * n),
